@@ -3,7 +3,7 @@
    at every point), and their value functions are the closed-form least-squares estimators. *)
 From Coq Require Import ZArith List Bool Reals Lra Lia.
 From Coquelicot Require Import Coquelicot.
-From GTCV Require Import Num RNum Vector VectorFacts Opres KTypes Kernel DerivTable ChainRule TBLib TypeB.
+From GTCV Require Import Num RNum Vector VectorFacts Opres KTypes Kernel DerivTable ChainRule Transparency TBLib TypeB.
 From GTCV.gen Require Import Gen_type_b.
 Import ListNotations.
 Local Open Scope R_scope.
@@ -43,7 +43,7 @@ Section Den.
   Fixpoint plain_tree (t : expr) : Prop :=
     match t with
     | EVar _ | ENum _ => True
-    | EUn _ t1 => plain_tree t1
+    | EUn f t1 => f <> U_phase /\ plain_tree t1
     | EBin f a b => (f <> B_pow /\ f <> B_atan2) /\ plain_tree a /\ plain_tree b
     end.
   Definition wf (m : mval) : Prop := match m with MN _ => True | ME t => plain_tree t end.
@@ -51,6 +51,7 @@ Section Den.
   Lemma plain_regular e0 t : plain_tree t -> regular Fi e0 t.
   Proof.
     induction t as [i|v|f t1 IH|f a IHa b IHb]; simpl; auto.
+    { intros [Hf Ht]. split; auto. destruct f; simpl; auto. congruence. }
     intros [[Hp Ha] [H1 H2]]. split; [auto|split; [auto|]]. destruct f; simpl; auto; congruence.
   Qed.
 
@@ -81,7 +82,7 @@ Section Den.
   Qed.
 
   Lemma mneg_den a c : mneg RNum a = Ok c -> (wf a -> wf c) /\ forall e, den c e = - den a e.
-  Proof. destruct a; simpl; intros [= <-]; split; auto. Qed.
+  Proof. destruct a; simpl; intros [= <-]; split; auto. intros; simpl; split; [discriminate|auto]. Qed.
 
   (* ----- sum ----- *)
   Definition sden (a : sacc RNum) (e : env) : R :=
@@ -489,14 +490,37 @@ Section Predict.
   Qed.
 End Predict.
 
-(* ---------- the label step: `result` is not bound in type_b.py (known finding) ---------- *)
-Theorem label_step_raises (s : KTypes.state R) (m : mval) (l : Z) :
-  g_tb_result_bound = false -> is_ME RNum m = true ->
-  exists e, snd (finish_pred RNum s (Ok m) (Some l)) = OutExn e.
+(* ---------- the label step: result(x, label=...) is core.result -- labels only label ---------- *)
+Lemma resolve_aux_fresh (sl : list (KTypes.slot R)) (o : KTypes.ureal R) fuel :
+  resolve_aux RNum fuel (sl ++ [SReal o None]) (length sl) = length sl.
 Proof.
-  intros Hb Hm. destruct m as [v|t]; [discriminate|]. unfold finish_pred. rewrite Hb.
-  match goal with |- exists e, snd (match ?X with Ok p => _ | Err ex => _ end) = _ =>
-    destruct X as [[s1 o1]|ex] end; simpl; eauto.
+  destruct fuel; simpl; [reflexivity|].
+  rewrite nth_error_app2 by apply Nat.le_refl. rewrite Nat.sub_diag. reflexivity.
+Qed.
+
+Lemma get_real_pushed (s : KTypes.state R) (o : KTypes.ureal R) :
+  get_real RNum (push RNum s (SReal o None)) (length (s_slots s)) = Ok (length (s_slots s), o, None).
+Proof.
+  unfold get_real, resolve, push. cbn [s_slots]. rewrite resolve_aux_fresh.
+  rewrite nth_error_app2 by apply Nat.le_refl. rewrite Nat.sub_diag. reflexivity.
+Qed.
+
+Definition not_var (t : expr) : Prop := match t with EVar _ => False | _ => True end.
+
+(* the labelled prediction is the unlabelled object o declared as an intermediate result: same
+   value, same components w.r.t. every elementary input; only an intermediate component for the
+   new node is added.  Needs `result` to be bound in type_b.py (g_tb_result_bound = true). *)
+Theorem label_only_labels (s : KTypes.state R) (t : expr) (o : KTypes.ureal R) (l : Z) s' x' u' d' i' k' :
+  not_var t -> eval_obj RNum s (ME t) = Ok o -> unode o = NoNode ->
+  finish_pred RNum s (Ok (ME t)) (Some l) = (s', OutObj x' u' d' i' k') ->
+  x' = ux o /\ u' = uc o /\ d' = dc o /\
+  exists k (un : R), k' = KInterm k /\ i' = @Vector.merge RNum (ic o) [(k, un)].
+Proof.
+  intros Hnv Hev Hn H. unfold finish_pred in H.
+  assert (Hb : g_tb_result_bound = true) by reflexivity. rewrite Hb in H.
+  destruct t as [i|v|f t1|f t1 t2]; [destruct Hnv| | |]; rewrite Hev in H;
+    (destruct (Transparency.result_same RNum _ _ _ _ _ _ _ _ _ _ _ _ (get_real_pushed s o) Hn H)
+       as [A [B [C [k [un [D [E _]]]]]]]; repeat split; auto; exists k, un; auto).
 Qed.
 
 (* ---------- weighted least squares over a list of data points (x, y, v, u) ---------- *)
@@ -841,36 +865,19 @@ Section PropagateWLS.
 End PropagateWLS.
 
 (* ---------- WTLS: the per-point variance g_k of `_arrays` and its derivative g_ka ----------
-   Hand transcription (over the reals) of eqn (53) as written in GTC/type_b.py `_arrays`
-   and of eqn (54) as written in `dChiSq_dalpha.arrays`; tied to the source only through the
-   known-finding replay C14-wtls-cov (the generated trees contain the same formulas, and are run
-   against the implementation bit for bit).  The source's g_k carries the covariance term
-   2.0*cov*sin(2a); the variance of y cos a - x sin a is u2x sin^2 + u2y cos^2 - cov sin(2a). *)
-Definition gk_src (u2x u2y cov a : R) : R := (u2x + u2y) / 2 - (u2x - u2y) * cos (2 * a) / 2 - 2 * cov * sin (2 * a).
+   eqn (53) as written in GTC/type_b.py `_arrays` and eqn (54) as written in `dChiSq_dalpha.arrays`
+   (the theorems about the GENERATED trees are in TypeBWtls.v): g_k is the variance of the residual
+   y cos a - x sin a, and g_ka is its derivative. *)
+Definition gk_src (u2x u2y cov a : R) : R := (u2x + u2y) / 2 - (u2x - u2y) * cos (2 * a) / 2 - cov * sin (2 * a).
 Definition gka_src (u2x u2y cov a : R) : R := sin (2 * a) * (u2x - u2y) - 2 * cov * cos (2 * a).
 Definition gk_true (u2x u2y cov a : R) : R := u2x * (sin a * sin a) + u2y * (cos a * cos a) - 2 * sin a * cos a * cov.
 
-Lemma gk_src_derive u2x u2y cov a :
-  is_derive (gk_src u2x u2y cov) a (gka_src u2x u2y cov a - 2 * cov * cos (2 * a)).
+Lemma gk_src_derive u2x u2y cov a : is_derive (gk_src u2x u2y cov) a (gka_src u2x u2y cov a).
 Proof. unfold gk_src, gka_src. auto_derive; [exact I|]. field. Qed.
 
-Lemma gk_true_derive u2x u2y cov a : is_derive (gk_true u2x u2y cov) a (gka_src u2x u2y cov a).
-Proof.
-  unfold gk_true, gka_src. auto_derive; [exact I|]. rewrite sin_2a, cos_2a. ring.
-Qed.
-
-Lemma gk_src_vs_true u2x u2y cov a : gk_src u2x u2y cov a = gk_true u2x u2y cov a - cov * sin (2 * a).
+Lemma gk_src_is_variance u2x u2y cov a : gk_src u2x u2y cov a = gk_true u2x u2y cov a.
 Proof.
   unfold gk_src, gk_true. rewrite sin_2a, cos_2a.
   pose proof (sin2_cos2 a) as H. unfold Rsqr in H.
   assert (E : sin a * sin a = 1 - cos a * cos a) by lra. rewrite !E. field.
-Qed.
-
-(* the formula of dChiSq_dalpha is therefore NOT the derivative of the formula of ChiSq once a
-   pair (x_k, y_k) is correlated: already the g_k factors disagree *)
-Theorem wtls_gk_derivative_refuted :
-  exists u2x u2y cov a D, is_derive (gk_src u2x u2y cov) a D /\ D <> gka_src u2x u2y cov a.
-Proof.
-  exists 1, 1, 1, 0, (gka_src 1 1 1 0 - 2 * 1 * cos (2 * 0)). split; [apply gk_src_derive|].
-  rewrite Rmult_0_r, cos_0. lra.
 Qed.
